@@ -1,7 +1,7 @@
 CONSTANT Allocs = {1, 2}
 CONSTANT MaxCounter = 12
 CONSTANT BatchCap = 4
-CONSTANT MaxSteps = 8
+CONSTANT MaxSteps = 7
 CONSTANT GrowModes = {TRUE, FALSE}
 CONSTANT FloorAhead = 2
 CONSTANT MaxPend = 1
